@@ -503,6 +503,34 @@ fn one(gi: usize, kind: usize, text: &str, lex: &str) -> Digest {
                 sec.push(("gen".to_string(), format!("builderr {}", e)));
             }
         }
+        // the lexer builder on its own, with a user-supplied id map in which several names share an id
+        // (several lexer rules producing one token): the generated constants must not depend on the map's
+        // iteration order
+        {
+            let mut names: Vec<String> = lex.lines().filter_map(|l| l.rsplit_once(" \"").map(|(_, n)| n.trim_end_matches('"').to_string())).collect();
+            names.sort();
+            names.dedup();
+            if names.len() >= 2 {
+                let map: HashMap<String, u32> = names.iter().enumerate().map(|(i, n)| (n.clone(), (i / 3) as u32)).collect();
+                let lout2 = format!("g{}_l2.rs", gi);
+                let r2 = CTLexerBuilder::<DefaultLexerTypes<u32>>::new()
+                    .rule_ids_map(&map)
+                    .lexer_path(&lp)
+                    .output_path(&lout2)
+                    .show_warnings(false)
+                    .allow_missing_terms_in_lexer(true)
+                    .allow_missing_tokens_in_parser(true)
+                    .build();
+                match r2 {
+                    Ok(_) => {
+                        let lc = strip_volatile(&std::fs::read_to_string(&lout2).unwrap_or_default());
+                        sec.push(("genl".to_string(), format!("lexer-with-shared-ids len={} fnv={:016x}", lc.len(), fnv(lc.as_bytes()))));
+                    }
+                    Err(e) => sec.push(("genl".to_string(), format!("builderr {}", e))),
+                }
+                let _ = std::fs::remove_file(&lout2);
+            }
+        }
         let _ = std::fs::remove_file(&gp);
         let _ = std::fs::remove_file(&lp);
     }
@@ -562,7 +590,12 @@ fn run_children(cases: &[Case], m: usize, tmp: &Path, deadline: Duration) -> Vec
                     status[k] = if st.success() { "ok".to_string() } else { format!("exit {:?}", st) };
                 }
                 Ok(None) => {
-                    if t0.elapsed() > deadline {
+                    // CPU time of the child, not wall-clock time: a loaded machine is not a hang
+                    let over = match crate::gen::worker::cpu_ms(ch.id()) {
+                        Some(u) => u as u128 > deadline.as_millis(),
+                        None => t0.elapsed() > deadline,
+                    };
+                    if over || t0.elapsed() > deadline * 10 {
                         let _ = ch.kill();
                         let _ = ch.wait();
                         finished[k] = true;
@@ -879,7 +912,7 @@ pub fn run(a: &Args) {
     let _ = std::fs::remove_dir_all(&tmp);
     let deadline = Duration::from_secs(if a.thorough { 900 } else { 150 });
     let outs = run_children(&cases, m, &tmp, deadline);
-    let compared = ["err", "gram", "graph", "table", "tableerr", "conf", "gen", "panic"];
+    let compared = ["err", "gram", "graph", "table", "tableerr", "conf", "gen", "genl", "panic"];
     let mut thread_budget = if a.thorough { 60 } else { 10 };
     for (gi, c) in cases.iter().enumerate() {
         let id = out.id();
